@@ -537,7 +537,8 @@ Fixpoint split_slash (l : list Z) : list Z * option (list Z) :=
 
 Definition has_slash (l : list Z) : bool := existsb (fun c => c =? c_slash) l.
 
-(* form: 0 start/end, 1 start/duration, 2 duration/end; parts only for 1 and 2 *)
+(* form: 0 start/end, 1 start/duration, 2 duration/end; parts only for 1 and 2.  The endpoint halves are not looked at here: C13's streams
+   only use date and date-time endpoints (a time or a duration as an endpoint is rejected by _parse_iso8601_interval: Model/ParseTotal.v) *)
 Definition interval_form (s : list Z) : result (Z * list Z) :=
   match split_slash s with
   | (first, Some last) =>
